@@ -8,6 +8,9 @@ set -u
 WT="$1"; NAME="$2"; shift 2
 OUT=/verif/seeded/$NAME
 mkdir -p "$OUT"
+# CONFIRM_PHASE=demo: only steps 1-2 (nothing touches /repo); CONFIRM_PHASE=check: only step 3 (after a demo phase)
+PHASE="${CONFIRM_PHASE:-all}"
+if [ "$PHASE" != "check" ]; then
 cd "$WT" || exit 2
 DEMO_CMD=$(python3 -c "import json,re;print(re.split(r'\s+\(|;|&&', json.load(open('SEED/meta.json')).get('demo_cmd','cargo test --offline --test seed_demo'))[0].strip())")
 case "$DEMO_CMD" in *--offline*) ;; *) DEMO_CMD="$DEMO_CMD --offline";; esac
@@ -24,6 +27,10 @@ PASSED=$(grep -E "^test result" /tmp/seed/$NAME.suite.log | awk '{s+=$4} END{pri
 echo "demo with change: rc=$RC_WITH (must be != 0); without: rc=$RC_WITHOUT (must be 0); suite with change: rc=$RC_SUITE passed=$PASSED"
 cp SEED/patch.diff SEED/meta.json "$OUT"/
 cp SEED/seed_demo.rs "$OUT"/ 2>/dev/null || cp tests/seed_demo.rs "$OUT"/
+echo "$RC_WITH $RC_WITHOUT $RC_SUITE $PASSED" > "$OUT/.demo_result"
+fi
+if [ "$PHASE" = "demo" ]; then exit 0; fi
+read RC_WITH RC_WITHOUT RC_SUITE PASSED < "$OUT/.demo_result"; rm -f "$OUT/.demo_result"
 cd /repo || exit 2
 if [ -n "$(git status --porcelain --untracked-files=no)" ]; then echo "repo not clean"; exit 2; fi
 if ! git apply "$OUT/patch.diff"; then echo "PATCH DOES NOT APPLY"; exit 3; fi
